@@ -184,7 +184,12 @@ Definition mon_step (cfg peer : list Z) (m : mon) (o : obs) : mon :=
 Definition hs_viol (cfg : list Z) (init : tcp) : bool :=
   if Nat.ltb (length cfg) 7 then false
   else negb (sndWnd (SN init) =? cfg_get cfg 5)
-       || negb (sndWndScale (SN init) =? Z.max 0 (cfg_get cfg 6)).
+       || negb (sndWndScale (SN init) =? Z.max 0 (cfg_get cfg 6))
+       (* the stack's own scale is the shift it announced in its SYN (cfg 12; -1 = none) whenever
+          the peer sent the option at all - a peer shift of 0 included - and 0 otherwise: the peer
+          reads every later window field as field << announced shift *)
+       || (Nat.leb 13 (length cfg)
+           && negb (rcvWndScale (RC init) =? (if cfg_get cfg 6 <? 0 then 0 else Z.max 0 (cfg_get cfg 12)))).
 
 Definition mon_init (cfg : list Z) (init : tcp) : mon :=
   let irs := cfg_get cfg 1 in
